@@ -53,6 +53,8 @@ type Scenario struct {
 	K        int   `json:"k"`        // number of waiters
 	Deadline int   `json:"deadline"` // index of the waiter whose context ends by deadline (-1: none)
 	Acts     []Act `json:"acts"`
+	// real-threads case (no script): the configuration of stress_test.go in which the failure was seen
+	Stress *CondStress `json:"stress,omitempty"`
 }
 
 func (s Scenario) Key() string {
@@ -442,6 +444,14 @@ type Verdict struct {
 	Params map[string]interface{}
 }
 
+func classOf(v *Verdict) string {
+	if v == nil || v.Params == nil {
+		return ""
+	}
+	c, _ := v.Params["class"].(string)
+	return c
+}
+
 func isWaiting(b byte) bool { return b == 'B' || b == 'P' }
 func isWoken(b byte) bool   { return b == 'R' || b == 'N' }
 
@@ -567,8 +577,18 @@ func monitor(tr Trace) *Verdict {
 			}
 		}
 	}
-	// "Once k goroutines have entered, m Signal calls wake at least min(k, m) of them": counted against
-	// an ideal condition variable run on the same events. `inM` = waiters that have entered and that
+	// "Once k goroutines have entered Wait (released the lock), m Signal calls wake at least min(k, m) OF
+	// THEM": the clause, literally and attributed, for every Signal call T of the trace after which no Broadcast
+	// runs. K = the waiters that have released the lock and are not yet woken when that Signal is issued (letters
+	// B, P), m = the Signal calls from T on (T included), W = the members of K that are woken at the (settled) end, E = the members of K
+	// that returned their context's error instead (they leave; the clause about expiry says they must not take
+	// a wake-up with them). Violated iff W < min(|K| - E, m). A wake-up that goes to a waiter that entered
+	// only after T does not count — "of them"; `taken` = such wake-ups (late entrants that returned nil).
+	if v := signalWindows(tr, entered, woken, cancelAt, stranded); v != nil {
+		return v
+	}
+	// Second, unattributed reading (kept as a net under the first one; it never fired alone on the unchanged
+	// tree): counted against an ideal condition variable run on the same events. `inM` = waiters that have entered and that
 	// the ideal one may still have asleep; `anon` = Signals that woke one of them (which one is not
 	// determined), i.e. wake-ups still owed. An observed wake-up of a waiter in M pays one owed
 	// wake-up if there is one (otherwise it is a spurious wake-up: a remembered token), an error
@@ -624,9 +644,125 @@ func monitor(tr Trace) *Verdict {
 		return &Verdict{Kind: "signal-wakeup-lost",
 			What: fmt.Sprintf("waiter(s) %v released the lock and are still parked at the end although %d wake-up(s) that an ideal condition variable performs for the same Signal calls never happened (%d Signal calls in the scenario, at most %d entered waiters not yet parked at a Signal)",
 				stranded, anon, nSignals, maxUnparked),
-			Params: map[string]interface{}{"unparked_waiters": maxUnparked, "signals": nSignals, "broadcasts": nBroadcasts, "cancels": nCancels}}
+			Params: map[string]interface{}{"unparked_waiters": maxUnparked, "signals": nSignals, "broadcasts": nBroadcasts, "cancels": nCancels,
+				"attributed": false, "class": "unattributed"}}
 	}
 	return nil
+}
+
+// signalWindows: see the comment at its call site. The parameters it reports are intrinsic to the window it
+// reports (not to the whole scenario), so that they mean the same before and after shrinking:
+//
+//	signals            Signal calls from T on
+//	unparked_waiters   largest number of entered, not yet parked waiters (letter B) at one of these Signal calls
+//	broadcasts         Broadcast calls from T on (always 0: such windows are not judged)
+//	cancels            members of K and late entrants that took a wake-up whose context was ended at some time
+//	deficit            min(|K| - E, m) - W
+//	taken_by_late_entrants  waiters that released the lock after T and returned nil
+//	unexplained_deficit     max(0, deficit - taken_by_late_entrants)
+//	class              "d13" (>= 2 un-parked waiters, >= 2 Signals, no expiry involved), "late-entrant" (at most one
+//	                   un-parked waiter, no expiry involved, the deficit is covered by wake-ups that late entrants
+//	                   took), else "other"
+func signalWindows(tr Trace, entered, woken, cancelAt []int, stranded []int) *Verdict {
+	const never = 1 << 30
+	k := tr.K
+	n := len(tr.Steps)
+	final := tr.Steps[n-1].Letters
+	lastBroadcast := -1
+	for t, st := range tr.Steps {
+		if st.Act.Op == "broadcast" {
+			lastBroadcast = t
+		}
+	}
+	type win struct {
+		T, m, K, E, W, deficit, taken, cancels, unparked int
+		members                                      []int
+	}
+	var best *win
+	// T ranges over the Signal calls after the last Broadcast: K is judged at the instant a Signal is issued ("once
+	// k goroutines have entered … m Signal calls": k counts the waiters that have entered when the first of the m
+	// Signal calls is made; a waiter that enters between T and a later Signal belongs to the window of that later
+	// Signal)
+	for T := lastBroadcast + 1; T < n; T++ {
+		if tr.Steps[T].Act.Op != "signal" || tr.Steps[T].Anomaly != "" {
+			continue
+		}
+		prev := strings.Repeat("I", k)
+		if T > 0 {
+			prev = tr.Steps[T-1].Letters
+		}
+		w := win{T: T}
+		inK := make([]bool, k)
+		for i := 0; i < k; i++ {
+			if prev[i] == 'B' || prev[i] == 'P' {
+				inK[i] = true
+				w.K++
+				w.members = append(w.members, i)
+				switch final[i] {
+				case 'R', 'N':
+					w.W++
+				case 'E':
+					w.E++
+				}
+				if cancelAt[i] != never {
+					w.cancels++
+				}
+			}
+		}
+		if w.K == 0 {
+			continue
+		}
+		p := prev
+		for t := T; t < n; t++ {
+			if tr.Steps[t].Act.Op == "signal" && tr.Steps[t].Anomaly == "" {
+				w.m++
+				if u := strings.Count(p, "B"); u > w.unparked {
+					w.unparked = u
+				}
+			}
+			p = tr.Steps[t].Letters
+		}
+		for i := 0; i < k; i++ {
+			if !inK[i] && entered[i] != never && entered[i] >= T && final[i] == 'N' {
+				w.taken++
+				if cancelAt[i] != never {
+					w.cancels++
+				}
+			}
+		}
+		need := w.K - w.E
+		if w.m < need {
+			need = w.m
+		}
+		w.deficit = need - w.W
+		if w.deficit <= 0 {
+			continue
+		}
+		// prefer the largest deficit, then the window least explained by late entrants, then the earliest
+		if best == nil || w.deficit > best.deficit || (w.deficit == best.deficit && w.taken < best.taken) {
+			ww := w
+			best = &ww
+		}
+	}
+	if best == nil {
+		return nil
+	}
+	unexplained := best.deficit - best.taken
+	if unexplained < 0 {
+		unexplained = 0
+	}
+	class := "other"
+	switch {
+	case best.cancels == 0 && best.unparked >= 2 && best.m >= 2:
+		class = "d13"
+	case best.cancels == 0 && best.unparked <= 1 && best.taken >= best.deficit:
+		class = "late-entrant"
+	}
+	return &Verdict{Kind: "signal-wakeup-lost",
+		What: fmt.Sprintf("when the Signal of step %d was issued waiters %v had released the lock and were not yet woken; %d Signal call(s) from there on (no Broadcast); of these waiters %d are woken and %d returned their context's error at the end, %d wake-up(s) short of min(k - expired, m); %d wake-up(s) went to waiter(s) that released the lock only after step %d; still parked at the end: %v",
+			best.T, best.members, best.m, best.W, best.E, best.deficit, best.taken, best.T, stranded),
+		Params: map[string]interface{}{"unparked_waiters": best.unparked, "signals": best.m, "broadcasts": 0, "cancels": best.cancels,
+			"deficit": best.deficit, "taken_by_late_entrants": best.taken, "unexplained_deficit": unexplained, "attributed": true, "class": class}}
 }
 
 // ---------------------------------------------------------------------------------------------
@@ -1011,6 +1147,19 @@ func TestVerif(t *testing.T) {
 			fmt.Println("cannot read replay:", err)
 			os.Exit(2)
 		}
+		if sc.Stress != nil {
+			b, _ := json.Marshal(sc.Stress)
+			fmt.Printf("replay of the real-threads configuration %s\n", b)
+			for n := 0; n < 10; n++ {
+				f, st := stressCond(*sc.Stress, 1500*time.Millisecond)
+				if f != nil {
+					fmt.Printf("  FAILS (slice %d, after %d Signal calls, %d Broadcast calls, %d Wait returns) %s: %s\n", n, st.signals, st.broadcasts, st.waitsNil+st.waitsErr, f.kind, f.what)
+					os.Exit(1)
+				}
+			}
+			fmt.Println("  no clause violated in 10 slices of 1.5 s")
+			return
+		}
 		failed := false
 		for j := 0; j < 5 && !failed; j++ {
 			tr := runInBubble(t, sc)
@@ -1040,6 +1189,26 @@ func TestVerif(t *testing.T) {
 		return
 	}
 
+	// Model-vs-Spec search on the Lean side: Signal and Broadcast calls statement by statement as regenerated,
+	// every interleaving with one waiter. On the unchanged code no state has panicked (that is the theorem
+	// `signal_broadcast_never_panic`); if the regenerated lock discipline changed, the search shows the
+	// interleaving even if the real scheduler does not produce it in this run.
+	if m != nil {
+		if out, err := m.Run([]string{"cex 1"}); err == nil && len(out) > 0 {
+			res.Count("model-vs-spec-searches")
+			if last := out[len(out)-1]; strings.HasPrefix(last, "cex") {
+				res.Fail(vlib.Failure{Source: "correspondence", Kind: "model-counterexample-signal-broadcast-panic",
+					What: "in the fine-grained Lean model of Signal / Broadcast as they are in the source now a panic is reachable: " + last,
+					Case: Scenario{K: 1, Deadline: -1}})
+			}
+		}
+	}
+	// real threads: overlapping Signal / Broadcast / Wait
+	if env.Thorough() || env.Deep {
+		stressCondPhase(res, 10*time.Second)
+	} else {
+		stressCondPhase(res, 1200*time.Millisecond)
+	}
 	for _, f := range vlib.CorpusFiles(env.Corpus, ".scn") {
 		b, err := os.ReadFile(f)
 		if err != nil {
